@@ -23,6 +23,7 @@ def _before(point):
 
 
 def reset():
+    DECOMP_OPTS["skip"] = False
     del CALLS[:]
     MEMO.clear()
     HOOKS["before_eval"] = None
@@ -483,6 +484,7 @@ def make_rec_minuit():
 # ------------------------------------------------------------------------------------------------
 
 
+DECOMP_OPTS = dict(skip=False)
 DECOMP = []  # matrices handed to the Cholesky / QR decomposition nodes (most recent last)
 
 
@@ -491,23 +493,28 @@ def install_decomp_recorder(max_iterations=None):
     bound the iterative-refit loop (kafe2's own default is 10 iterations)"""
     import kafe2  # noqa: F401
 
+    import kafe2.fit.multi.fit  # noqa: F401
+
     M = sys.modules
     fitmod = M["kafe2.fit._base.fit"]
     if getattr(fitmod, "_vx_decomp", False):
         return
     fitmod._vx_decomp = True
-    for nm in ("cholesky_decomposition", "qr_decomposition"):
-        orig = getattr(fitmod, nm)
+    for mod, where in ((fitmod, ""), (M["kafe2.fit.multi.fit"], "multi:")):
+        for nm in ("cholesky_decomposition", "qr_decomposition"):
+            orig = getattr(mod, nm)
 
-        def make(orig_, nm_):
-            def rec(mat):
-                DECOMP.append((nm_, mat))
-                return orig_(mat)
+            def make(orig_, nm_):
+                def rec(mat):
+                    DECOMP.append((nm_, mat))
+                    if DECOMP_OPTS["skip"]:
+                        return None  # the caller only wants to see the matrix that reaches the node
+                    return orig_(mat)
 
-            rec.__name__ = orig_.__name__
-            return rec
+                rec.__name__ = orig_.__name__
+                return rec
 
-        setattr(fitmod, nm, make(orig, nm))
+            setattr(mod, nm, make(orig, where + nm))
     if max_iterations is not None:
         real_kc = fitmod.kc
 
